@@ -495,6 +495,9 @@ impl Scanner {
                     return Err(());
                 }
                 read_chars.push_str(chars);
+                if read_chars.ends_with('\n') {
+                    self.line += 1;
+                }
             }
             let result = u8::from_str_radix(read_chars.as_str(), 16);
             match result {
